@@ -1,3 +1,4 @@
+#[cfg(not(metrics_verif))]
 use std::{
     slice::Iter,
     sync::{
@@ -8,6 +9,13 @@ use std::{
         Arc,
     },
 };
+#[cfg(metrics_verif)]
+use metrics::verif::atomic::{
+    AtomicBool, AtomicU64,
+    Ordering::{AcqRel, Acquire, Relaxed, Release},
+};
+#[cfg(metrics_verif)]
+use std::{slice::Iter, sync::Arc};
 
 use metrics::{CounterFn, GaugeFn, HistogramFn, Key};
 use metrics_util::{
